@@ -161,9 +161,39 @@ rotl(uint64_t x, int k)
     return (x << k) | (x >> (64 - k));
 }
 
+/* A generator can be bound to an octet string instead of a seed: every draw then consumes the next eight
+ * octets (zero once the string is used up). Coverage-guided targets use this to let the fuzzer mutate the
+ * "random" choices of an existing workload. */
+#define VH_STREAM_MAGIC 0x53545245414d2121ull
+static const unsigned char *stream_p;
+static size_t stream_n, stream_pos;
+
+void
+vh_rng_stream(vh_rng *r, const unsigned char *p, size_t n)
+{
+    r->s[0] = VH_STREAM_MAGIC;
+    r->s[1] = ~VH_STREAM_MAGIC;
+    r->s[2] = r->s[3] = 0;
+    stream_p = p;
+    stream_n = n;
+    stream_pos = 0;
+}
+
+size_t
+vh_rng_stream_left(void)
+{
+    return stream_n - stream_pos;
+}
+
 uint64_t
 vh_rand(vh_rng *r)
 {
+    if (r->s[0] == VH_STREAM_MAGIC && r->s[1] == ~VH_STREAM_MAGIC) {
+        uint64_t v = 0;
+        for (int i = 0; i < 8 && stream_pos < stream_n; i++)
+            v |= (uint64_t)stream_p[stream_pos++] << (8 * i);
+        return v;
+    }
     uint64_t *s = r->s;
     const uint64_t result = rotl(s[1] * 5, 7) * 9;
     const uint64_t t = s[1] << 17;
